@@ -121,6 +121,11 @@ def run(tier="quick", seed=0, repo="/repo"):
                 rec.case((name, n, "batch-bad"), True)
                 check_one(rec, name, sc, X, n, k, min_size, oracle, [list(vs[-1]), list(vs[0])])
                 rec.case((name, n, "batch-good"), True)
+                # every valid tuple in ONE call (lexicographic, reversed, and interleaved from both ends): each row is the score of its own cut
+                inter = [vs[i // 2] if i % 2 == 0 else vs[-1 - i // 2] for i in range(len(vs))]
+                for label, order in (("all-lex", vs), ("all-rev", vs[::-1]), ("all-interleaved", inter)):
+                    check_one(rec, name, sc, X, n, k, min_size, oracle, [list(v) for v in order])
+                    rec.case((name, n, label), True)
             # malformed arrays
             for label, arr in (("float", np.array([[0.0, float(n)] + [float(n)] * (k - 2)])[:, :k]),
                                ("width", np.arange(k + 1).reshape(1, -1)),
